@@ -756,3 +756,528 @@ Proof.
   rewrite (I7 Hf), zlen_nil in I6. split; [lia|exact I5].
 Qed.
 
+
+(* ------------------------------------------------------------------------------------------ *)
+(* E. client                                                                                     *)
+
+Definition sending_Z (p : cphase) : Z := match p with CSending _ => 1 | _ => 0 end.
+Definition sent_Z (p : cphase) : Z := match p with CSent _ => 1 | _ => 0 end.
+Definition idle_stage (p : cphase) : bool := match p with CRecovery | CNormal => true | _ => false end.
+
+Record c_inv (s : cstate) : Prop := {
+  ci_bug : 0 <= c_bug s;
+  ci_unacked_nonneg : 0 <= c_unacked_total s;
+  ci_gpack : c_bug s = 0 -> k_gpack (c_m s) = zlen (c_achan s) + zlen (c_pmap s);
+  ci_gleft : k_gleft (c_m s) = zlen (c_left s) + c_dups s;
+  ci_fwd : c_bug s = 0 -> k_fwd_n (c_m s) = k_ack_n (c_m s) + c_unacked_total s + zlen (c_achan s) + zlen (c_pmap s);
+  ci_attempts : k_attempts (c_m s) = c_completed s + c_failed s + sending_Z (c_phase s);
+  ci_completed : k_fwd_n (c_m s) + sent_Z (c_phase s) <= c_completed s;
+  ci_ack : k_ack_n (c_m s) = c_cb_consumed s;
+  ci_taken : c_bug s = 0 -> c_taken s = c_cb_consumed s + c_cb_left s + c_holdings s + c_dups s;
+  ci_snapshot : in_session (c_phase s) = true -> c_acker s = AEnded -> c_unacked s = c_pmap s;
+  ci_last : idle_stage (c_phase s) = true -> c_last s = None;
+  ci_outside : in_session (c_phase s) = false -> c_achan s = [] /\ c_pmap s = [] /\ c_last s = None;
+  ci_stopped : c_phase s = CStopped -> c_left s = [];
+  ci_failed_nonneg : 0 <= c_failed s
+}.
+
+Lemma c_init_inv : c_inv c_init.
+Proof. constructor; simpl; intros; try reflexivity; try lia; try discriminate; auto. Qed.
+
+Lemma next_phase_outside : forall n, in_session (next_phase n) = false.
+Proof. intros [|[|n]]; reflexivity. Qed.
+Lemma next_phase_sending : forall n, sending_Z (next_phase n) = 0 /\ sent_Z (next_phase n) = 0 /\ idle_stage (next_phase n) = false.
+Proof. intros [|[|n]]; repeat split; reflexivity. Qed.
+
+Lemma zlen_opt_list : forall (A : Type) (o : option A), zlen (opt_list o) = len_opt o.
+Proof. intros A [a|]; reflexivity. Qed.
+
+Lemma next_phase_not_stopped : forall n, next_phase n <> CStopped.
+Proof. intros [|[|n]]; discriminate. Qed.
+
+Lemma c_step_inv : forall cfg s e s', c_inv s -> c_step cfg s e = Some s' -> c_inv s'.
+Proof.
+  intros cfg s e s' Hi Hs.
+  destruct Hi as [J1 J2 J3 J4 J5 J6 J7 J8 J9 J10 J11 J12 J13 J14].
+  unfold c_holdings in *.
+  destruct s as [[ka kfn kfb kan kab ko ke kgl kgp] ph ak left last achan pmap unacked stop taken completed failed utot cbc cbl dups bug].
+  cbn [c_m c_phase c_acker c_left c_last c_achan c_pmap c_unacked c_stop c_taken c_completed c_failed c_unacked_total c_cb_consumed c_cb_left c_dups c_bug
+       k_attempts k_fwd_n k_fwd_b k_ack_n k_ack_b k_opened k_errors k_gleft k_gpack] in *.
+  destruct e; unfold c_step in Hs; unfold collect, set_phase, set_cm, set_acker, km_error, km_opening, km_forwarding, km_forwarded,
+      km_acknowledged, km_popped, km_session_ended in Hs;
+    cbn [c_m c_phase c_acker c_left c_last c_achan c_pmap c_unacked c_stop c_taken c_completed c_failed c_unacked_total c_cb_consumed c_cb_left c_dups c_bug
+       k_attempts k_fwd_n k_fwd_b k_ack_n k_ack_b k_opened k_errors k_gleft k_gpack] in Hs;
+    destruct ph; try discriminate; cbn [in_session] in Hs; b_crunch; try discriminate.
+  all: try (match goal with H : take_id _ _ = Some _ |- _ => apply take_id_spec in H; destruct H as (? & _ & _) end).
+  all: cbn [in_session idle_stage sending_Z sent_Z] in *.
+  all: try (destruct (J12 eq_refl) as (Ha & Hp & Hl); subst).
+  all: try (specialize (J11 eq_refl); subst).
+  all: try (specialize (J10 eq_refl eq_refl); subst).
+  all: constructor; unfold c_holdings;
+       cbn [c_m c_phase c_acker c_left c_last c_achan c_pmap c_unacked c_stop c_taken c_completed c_failed c_unacked_total c_cb_consumed c_cb_left c_dups c_bug
+            k_attempts k_fwd_n k_fwd_b k_ack_n k_ack_b k_opened k_errors k_gleft k_gpack in_session idle_stage sending_Z sent_Z opt_list len_opt];
+       rewrite ?zlen_app, ?zlen_cons, ?zlen_nil, ?zlen_opt_list in *; cbn [len_opt] in *.
+  all: try match goal with
+       | |- context [next_phase ?n] =>
+         let q := fresh "q" in
+         pose proof (next_phase_outside n); pose proof (next_phase_not_stopped n); destruct (next_phase_sending n) as (? & ? & ?);
+         remember (next_phase n) as q
+       end.
+  all: repeat match goal with
+       | l : list chunk |- _ => lazymatch goal with H : 0 <= zlen l |- _ => fail | _ => pose proof (zlen_nonneg _ l) end
+       end.
+  all: intros;
+       repeat match goal with H : ?b = 0 -> _ |- _ => first [ specialize (H ltac:(lia)) | clear H ] end;
+       try lia; try congruence; try reflexivity; try (repeat split; (reflexivity || assumption || congruence)); auto.
+Qed.
+
+Lemma c_run_inv : forall cfg evs s s', c_inv s -> c_run cfg s evs = Some s' -> c_inv s'.
+Proof.
+  intros cfg. induction evs as [|e evs IH]; intros s s' Hi Hr; simpl in Hr.
+  - inversion Hr; subst; exact Hi.
+  - destruct (c_step cfg s e) eqn:Hs; [|discriminate]. eapply IH; [|exact Hr]. eapply c_step_inv; eauto.
+Qed.
+
+(* the client's counters in every reachable state (the acknowledger contract "Close makes pending operations
+   return" is the hypothesis c_bug = 0: the BUG branch of collectLeftovers was never taken) *)
+Lemma client_invariants_lemma : forall cfg evs s,
+  c_run cfg c_init evs = Some s -> c_bug s = 0 ->
+  k_fwd_n (c_m s) = k_ack_n (c_m s) + c_unacked_total s + zlen (c_achan s) + zlen (c_pmap s) /\
+  k_gpack (c_m s) = zlen (c_achan s) + zlen (c_pmap s) /\
+  k_gleft (c_m s) = zlen (c_left s) + c_dups s /\
+  k_attempts (c_m s) = c_completed s + c_failed s + sending_Z (c_phase s) /\
+  k_fwd_n (c_m s) <= c_completed s /\ k_ack_n (c_m s) <= k_fwd_n (c_m s) /\
+  k_ack_n (c_m s) = c_cb_consumed s /\
+  c_taken s = c_cb_consumed s + c_cb_left s + c_holdings s + c_dups s.
+Proof.
+  intros cfg evs s Hr Hb.
+  destruct (c_run_inv cfg evs _ _ c_init_inv Hr) as [J1 J2 J3 J4 J5 J6 J7 J8 J9 J10 J11 J12 J13 J14].
+  specialize (J3 Hb). specialize (J5 Hb). specialize (J9 Hb).
+  pose proof (zlen_nonneg _ (c_achan s)). pose proof (zlen_nonneg _ (c_pmap s)).
+  assert (0 <= sent_Z (c_phase s)) by (destruct (c_phase s); simpl; lia).
+  repeat split; try assumption; lia.
+Qed.
+
+(* at the end of run(): nothing is held; with distinct chunk ids (no duplicate removed) the gauges are zero *)
+Lemma client_final_lemma : forall cfg evs s,
+  c_run cfg c_init evs = Some s -> c_phase s = CStopped -> c_bug s = 0 ->
+  c_holdings s = 0 /\
+  k_fwd_n (c_m s) = k_ack_n (c_m s) + c_unacked_total s /\
+  k_gpack (c_m s) = 0 /\ k_gleft (c_m s) = c_dups s /\
+  k_attempts (c_m s) = c_completed s + c_failed s /\
+  c_taken s = c_cb_consumed s + c_cb_left s + c_dups s.
+Proof.
+  intros cfg evs s Hr Hp Hb.
+  destruct (c_run_inv cfg evs _ _ c_init_inv Hr) as [J1 J2 J3 J4 J5 J6 J7 J8 J9 J10 J11 J12 J13 J14].
+  specialize (J3 Hb). specialize (J5 Hb). specialize (J9 Hb).
+  rewrite Hp in *. destruct (J12 eq_refl) as (Ha & Hpm & Hl).
+  unfold c_holdings in *. rewrite Ha, Hpm, Hl in *. rewrite zlen_nil in *. cbn [len_opt sending_Z] in *.
+  assert (Hleft : c_left s = []) by (apply J13; reflexivity).
+  rewrite Hleft, zlen_nil in *. repeat split; lia.
+Qed.
+
+
+(* the acknowledger contract is needed: if the acknowledger does not end in time (BUG branch of
+   collectLeftovers) the chunks it holds are forgotten and the pendingAck gauge never returns to zero *)
+Lemma acker_stuck_refuted_lemma :
+  exists evs s, c_run (CC 3) c_init evs = Some s /\ c_phase s = CStopped /\ c_bug s = 1 /\
+                k_gpack (c_m s) = 1 /\ c_taken s = 1 /\ c_cb_consumed s + c_cb_left s = 0.
+Proof.
+  exists [COpen; COpenOk; CRecoveryDone; CTake (CH 1 10 false true); CSendOk; CQueue; AckerTake; CStop; CInputClosed;
+          CCollectBug; CFinish].
+  eexists. split; [vm_compute; reflexivity|]. vm_compute. repeat split; reflexivity.
+Qed.
+
+(* ------------------------------------------------------------------------------------------ *)
+(* F. system: buffer + client                                                                    *)
+
+Lemma b_internal_frame : forall cfg s e s', b_internal e = true -> b_step cfg s e = Some s' ->
+  m_consumed (b_m s') = m_consumed (b_m s) /\ m_leftover (b_m s') = m_leftover (b_m s) /\ b_held s' = b_held s /\
+  (b_phase s' = BDone -> b_phase s = BDone).
+Proof.
+  intros cfg s e s' Hint Hs.
+  destruct s as [[mp mt mpe mc ml md mpc mpb mio] q h w held parked left lost nf orph ph acc rcv].
+  destruct e; try discriminate; unfold b_step in Hs; unfold save_chunk, op_unload, op_remove, man_dropped, m_resolve, m_input, set_m in Hs;
+    cbn [b_m b_queue b_hand b_window b_held b_parked b_left b_lost b_nfiles b_orphans b_phase b_accepted b_recovered
+       m_pending m_in_t m_in_p m_consumed m_leftover m_dropped m_pchunks m_pbytes m_ioerr ch_saved ch_loaded ch_size ch_id] in Hs;
+    destruct ph; cbn [running feeding] in Hs; try discriminate;
+    b_crunch; try discriminate; cbn; repeat split; auto; try discriminate; try lia.
+Qed.
+
+Lemma c_internal_frame : forall cfg s e s', c_internal e = true -> c_step cfg s e = Some s' ->
+  c_taken s' = c_taken s /\ c_cb_consumed s' = c_cb_consumed s /\ c_cb_left s' = c_cb_left s /\
+  (c_phase s = CStopped -> c_phase s' = CStopped).
+Proof.
+  intros cfg s e s' Hint Hs.
+  destruct s as [[ka kfn kfb kan kab ko ke kgl kgp] ph ak left last achan pmap unacked stop taken completed failed utot cbc cbl dups bug].
+  destruct e; try discriminate; unfold c_step in Hs; unfold collect, set_phase, set_cm, set_acker in Hs;
+    cbn [c_m c_phase c_acker c_left c_last c_achan c_pmap c_unacked c_stop c_taken c_completed c_failed c_unacked_total c_cb_consumed c_cb_left c_dups c_bug] in Hs;
+    destruct ph; try discriminate; cbn [in_session] in Hs; b_crunch; try discriminate; cbn; repeat split; auto; try discriminate; try lia.
+Qed.
+
+Record sys_inv (bc : bcfg) (n0 : Z) (s : sys) : Prop := {
+  si_b : b_inv bc n0 (s_b s);
+  si_c : c_inv (s_c s);
+  si_consumed : m_consumed (b_m (s_b s)) = c_cb_consumed (s_c s);
+  si_held : zlen (b_held (s_b s)) = c_taken (s_c s) - c_cb_consumed (s_c s) - c_cb_left (s_c s);
+  si_leftover : bc_fix5 bc = false -> m_leftover (b_m (s_b s)) = c_cb_left (s_c s);
+  si_done : b_phase (s_b s) = BDone -> c_phase (s_c s) = CStopped
+}.
+
+Lemma sys_init_inv : forall bc n0, sys_inv bc n0 (sys_init n0).
+Proof.
+  intros bc n0. constructor; simpl; try reflexivity; try discriminate.
+  - apply b_init_inv.
+  - apply c_init_inv.
+Qed.
+
+Lemma sys_step_inv : forall bc cc n0 s e s', sys_inv bc n0 s -> sys_step bc cc s e = Some s' -> sys_inv bc n0 s'.
+Proof.
+  intros bc cc n0 [b c] e s' [Hb Hc L1 L2 L3 L4] Hs. cbn [s_b s_c] in *.
+  destruct e as [be|ce| |oid ul|wr| | |]; cbn [sys_step s_b s_c] in Hs.
+  - (* buffer-internal *)
+    destruct (b_internal be) eqn:Hi; [|discriminate].
+    destruct (b_step bc b be) as [b'|] eqn:Hbs; [|discriminate]. inversion Hs; subst s'; clear Hs.
+    destruct (b_internal_frame _ _ _ _ Hi Hbs) as (F1 & F2 & F3 & F4).
+    constructor; cbn [s_b s_c]; try (eapply b_step_inv; eauto); try assumption; try congruence; auto.
+    intros Hf. rewrite F2. auto.
+  - (* client-internal *)
+    destruct (c_internal ce) eqn:Hi; [|discriminate].
+    destruct (c_step cc c ce) as [c'|] eqn:Hcs; [|discriminate]. inversion Hs; subst s'; clear Hs.
+    destruct (c_internal_frame _ _ _ _ Hi Hcs) as (F1 & F2 & F3 & F4).
+    constructor; cbn [s_b s_c]; try (eapply c_step_inv; eauto); try assumption; try congruence; auto.
+    all: try (intros Hf; rewrite F3; auto).
+  - (* STake *)
+    destruct (b_window b) as [|x w] eqn:Hw; [discriminate|].
+    destruct (b_step bc b BTake) as [b'|] eqn:Hbs; [|discriminate].
+    destruct (c_step cc c (CTake x)) as [c'|] eqn:Hcs; [|discriminate]. inversion Hs; subst s'; clear Hs.
+    assert (Hb' := b_step_inv _ _ _ _ _ Hb Hbs). assert (Hc' := c_step_inv _ _ _ _ Hc Hcs).
+    unfold b_step in Hbs. rewrite Hw in Hbs. destruct (b_phase b) eqn:Hph; try discriminate; inversion Hbs; subst b'; clear Hbs.
+    all: unfold c_step in Hcs; destruct (c_phase c) eqn:Hcp; try discriminate; inversion Hcs; subst c'; clear Hcs.
+    all: constructor; cbn [s_b s_c b_m b_held b_phase c_taken c_cb_consumed c_cb_left c_phase] in *; try assumption; try discriminate.
+    all: rewrite ?zlen_app, ?zlen_cons, ?zlen_nil; lia.
+  - (* SAck *)
+    destruct (c_acker c) as [|cur|] eqn:Hak; try discriminate.
+    set (id := match oid with Some i => i | None => ch_id cur end) in *.
+    destruct (take_id id (c_pmap c)) as [[x pm]|] eqn:Ht.
+    + destruct (c_step cc c (AckRead oid)) as [c'|] eqn:Hcs; [|discriminate].
+      destruct (b_step bc b (BConsumed id ul)) as [b'|] eqn:Hbs; [|discriminate]. inversion Hs; subst s'; clear Hs.
+      assert (Hb' := b_step_inv _ _ _ _ _ Hb Hbs). assert (Hc' := c_step_inv _ _ _ _ Hc Hcs).
+      unfold c_step in Hcs. rewrite Hak in Hcs. destruct (in_session (c_phase c)) eqn:Hsess; [|discriminate].
+      fold id in Hcs. rewrite Ht in Hcs. inversion Hcs; subst c'; clear Hcs.
+      unfold b_step in Hbs. destruct (take_id id (b_held b)) as [[y held']|] eqn:Hth.
+      * apply take_id_spec in Hth. destruct Hth as (Hlen & _ & _).
+        destruct (b_phase b) eqn:Hph; try discriminate; destruct (op_remove bc (b_m b) y ul) as [[m1 rm] orph] eqn:Hrm;
+          inversion Hbs; subst b'; clear Hbs.
+        all: assert (Hm1 : m_consumed m1 = m_consumed (b_m b) /\ m_leftover m1 = m_leftover (b_m b))
+               by (unfold op_remove in Hrm; b_crunch; split; reflexivity).
+        all: destruct Hm1 as [Hm1 Hm2].
+        all: constructor; cbn [s_b s_c b_m b_held b_phase c_taken c_cb_consumed c_cb_left c_phase m_resolve m_consumed m_leftover] in *;
+             try assumption; try discriminate; try lia.
+        all: intros Hf; specialize (L3 Hf); lia.
+      * destruct (b_phase b); discriminate.
+    + destruct (c_step cc c (AckRead oid)) as [c'|] eqn:Hcs; [|discriminate]. inversion Hs; subst s'; clear Hs.
+      assert (Hc' := c_step_inv _ _ _ _ Hc Hcs).
+      unfold c_step in Hcs. rewrite Hak in Hcs. destruct (in_session (c_phase c)) eqn:Hsess; [|discriminate].
+      fold id in Hcs. rewrite Ht in Hcs. inversion Hcs; subst c'; clear Hcs.
+      constructor; cbn [s_b s_c c_taken c_cb_consumed c_cb_left c_phase set_acker set_cm] in *; try assumption.
+      all: try (intros Hd; specialize (L4 Hd); rewrite L4 in Hsess; discriminate).
+  - (* SHandBack *)
+    destruct (c_left c) as [|x l] eqn:Hl; [discriminate|].
+    destruct (c_step cc c CFinalPop) as [c'|] eqn:Hcs; [|discriminate].
+    destruct (b_step bc b (BLeftover (ch_id x) wr)) as [b'|] eqn:Hbs; [|discriminate]. inversion Hs; subst s'; clear Hs.
+    assert (Hb' := b_step_inv _ _ _ _ _ Hb Hbs). assert (Hc' := c_step_inv _ _ _ _ Hc Hcs).
+    unfold c_step in Hcs. rewrite Hl in Hcs. destruct (c_phase c) eqn:Hcp; try discriminate. inversion Hcs; subst c'; clear Hcs.
+    unfold b_step in Hbs. destruct (take_id (ch_id x) (b_held b)) as [[y held']|] eqn:Hth.
+    + apply take_id_spec in Hth. destruct Hth as (Hlen & _ & _).
+      destruct (b_phase b) eqn:Hph; try discriminate;
+        destruct (op_unload bc (b_m b) y wr) as [[[[c' m'] df]|] m''] eqn:Hun;
+        assert (Hm : (forall c' m' df, fst (op_unload bc (b_m b) y wr) = Some (c', m', df) ->
+                        m_consumed m' = m_consumed (b_m b) /\ m_leftover m' = m_leftover (b_m b)) /\
+                     m_consumed (snd (op_unload bc (b_m b) y wr)) = m_consumed (b_m b) /\
+                     m_leftover (snd (op_unload bc (b_m b) y wr)) = m_leftover (b_m b))
+          by (unfold op_unload; repeat match goal with |- context [if ?c then _ else _] => destruct c end;
+              cbn [fst snd]; (split; [intros ? ? ? He; inversion He; subst; split; reflexivity | split; reflexivity]));
+        rewrite Hun in Hm; cbn [fst snd] in Hm; destruct Hm as (Hm1 & Hm2 & Hm3).
+      all: try (destruct (Hm1 _ _ _ eq_refl) as [Hm4 Hm5]).
+      all: try (destruct (bc_fix5 bc) eqn:Hfix).
+      all: inversion Hbs; subst b'; clear Hbs.
+      all: constructor; cbn [s_b s_c b_m b_held b_phase c_taken c_cb_consumed c_cb_left c_phase m_resolve man_dropped m_consumed m_leftover] in *;
+           try assumption; try discriminate; try lia.
+      all: try (intros Hf; first [congruence | (specialize (L3 Hf); lia)]).
+    + destruct (b_phase b); discriminate.
+  - (* SStop *)
+    destruct (closed_out (b_phase b)) eqn:Hco; [|discriminate].
+    destruct (c_step cc c CStop) as [c'|] eqn:Hcs; [|discriminate]. inversion Hs; subst s'; clear Hs.
+    assert (Hc' := c_step_inv _ _ _ _ Hc Hcs). unfold c_step in Hcs. inversion Hcs; subst c'; clear Hcs.
+    constructor; cbn [s_b s_c c_taken c_cb_consumed c_cb_left c_phase] in *; assumption.
+  - (* SInputClosed *)
+    destruct (b_window b) eqn:Hw; [|discriminate]. destruct (closed_out (b_phase b)) eqn:Hco; [|discriminate].
+    destruct (c_step cc c CInputClosed) as [c'|] eqn:Hcs; [|discriminate]. inversion Hs; subst s'; clear Hs.
+    assert (Hc' := c_step_inv _ _ _ _ Hc Hcs). unfold c_step in Hcs.
+    destruct (c_phase c) eqn:Hcp; try discriminate. destruct (c_stop c); [|discriminate]. inversion Hcs; subst c'; clear Hcs.
+    constructor; cbn [s_b s_c c_taken c_cb_consumed c_cb_left c_phase set_phase] in *; try assumption.
+    all: try (intros Hd; specialize (L4 Hd); discriminate).
+  - (* SFinish *)
+    destruct (c_step cc c CFinish) as [c'|] eqn:Hcs; [|discriminate].
+    destruct (b_step bc b BFinish) as [b'|] eqn:Hbs; [|discriminate]. inversion Hs; subst s'; clear Hs.
+    assert (Hb' := b_step_inv _ _ _ _ _ Hb Hbs). assert (Hc' := c_step_inv _ _ _ _ Hc Hcs).
+    unfold c_step in Hcs. destruct (c_phase c) eqn:Hcp; try discriminate. destruct (c_left c); [|discriminate].
+    inversion Hcs; subst c'; clear Hcs.
+    unfold b_step in Hbs. destruct (b_phase b) eqn:Hph; try discriminate.
+    destruct (b_queue b); try discriminate. destruct (b_hand b); try discriminate.
+    destruct (b_window b); try discriminate. destruct (b_held b) eqn:Hh; try discriminate.
+    inversion Hbs; subst b'; clear Hbs.
+    constructor; cbn [s_b s_c b_m b_held b_phase c_taken c_cb_consumed c_cb_left c_phase set_phase] in *; try assumption; try reflexivity.
+    all: try (rewrite zlen_nil in *; lia).
+Qed.
+
+Lemma sys_run_inv : forall bc cc n0 evs s s', sys_inv bc n0 s -> sys_run bc cc s evs = Some s' -> sys_inv bc n0 s'.
+Proof.
+  intros bc cc n0. induction evs as [|e evs IH]; intros s s' Hi Hr; simpl in Hr.
+  - inversion Hr; subst; exact Hi.
+  - destruct (sys_step bc cc s e) eqn:Hs; [|discriminate]. eapply IH; [|exact Hr]. eapply sys_step_inv; eauto.
+Qed.
+
+(* the counters of one pipeline x output in every reachable state of the system *)
+Lemma system_invariants_lemma : forall bc cc n0 evs s,
+  sys_run bc cc (sys_init n0) evs = Some s ->
+  let b := s_b s in let c := s_c s in
+  m_in_t (b_m b) + m_in_p (b_m b) = m_consumed (b_m b) + m_leftover (b_m b) + m_dropped (b_m b) + m_pending (b_m b) /\
+  m_in_t (b_m b) + m_in_p (b_m b) = b_accepted b + b_recovered b /\
+  k_ack_n (c_m c) = m_consumed (b_m b) /\
+  zlen (b_held b) = c_taken c - c_cb_consumed c - c_cb_left c /\
+  k_attempts (c_m c) >= c_completed c /\ c_completed c >= k_fwd_n (c_m c).
+Proof.
+  intros bc cc n0 evs s Hr b c.
+  destruct (sys_run_inv bc cc n0 evs _ _ (sys_init_inv bc n0) Hr) as [Hb Hc L1 L2 L3 L4].
+  destruct Hb as [I1 I2 I3 _ _ _ _ _ _]. destruct Hc as [J1 J2 J3 J4 J5 J6 J7 J8 J9 J10 J11 J12 J13 J14].
+  fold b in I1, I2, I3, L1, L2. fold c in J6, J7, J8, J14, L1, L2.
+  assert (0 <= sending_Z (c_phase c)) by (destruct (c_phase c); simpl; lia).
+  assert (0 <= sent_Z (c_phase c)) by (destruct (c_phase c); simpl; lia).
+  repeat split; try assumption; lia.
+Qed.
+
+(* at quiescence (the feeder has finished, which requires the client to have returned), under the connection
+   contract (no BUG branch) and with distinct chunk ids (no duplicate removed):
+   accepted = acknowledged + leftover + dropped + saved-at-shutdown, every gauge of the client is zero,
+   forwarded = acknowledged + unacknowledged-at-session-ends, attempts >= completed sends >= forwarded >= acknowledged *)
+Lemma system_final_lemma : forall bc cc n0 evs s,
+  sys_run bc cc (sys_init n0) evs = Some s ->
+  let b := s_b s in let c := s_c s in
+  b_phase b = BDone -> c_bug c = 0 -> c_dups c = 0 ->
+  b_accepted b + b_recovered b = k_ack_n (c_m c) + m_leftover (b_m b) + m_dropped (b_m b) + zlen (b_parked b) /\
+  m_pending (b_m b) = zlen (b_parked b) /\ all_saved (b_parked b) /\
+  k_ack_n (c_m c) = m_consumed (b_m b) /\
+  k_gpack (c_m c) = 0 /\ k_gleft (c_m c) = 0 /\
+  k_fwd_n (c_m c) = k_ack_n (c_m c) + c_unacked_total c /\
+  k_attempts (c_m c) = c_completed c + c_failed c /\ c_completed c >= k_fwd_n (c_m c) /\ k_fwd_n (c_m c) >= k_ack_n (c_m c) /\
+  c_taken c = k_ack_n (c_m c) + c_cb_left c /\
+  (bc_fix5 bc = false -> m_leftover (b_m b) = c_cb_left c).
+Proof.
+  intros bc cc n0 evs s Hr b c Hd Hbug Hdup.
+  destruct (sys_run_inv bc cc n0 evs _ _ (sys_init_inv bc n0) Hr) as [Hb Hc L1 L2 L3 L4].
+  fold b in Hb, L1, L2, L3, L4. fold c in Hc, L1, L2, L3, L4.
+  specialize (L4 Hd).
+  destruct Hb as [I1 I2 I3 I4 I5 I6 I7 I8 I9]. destruct Hc as [J1 J2 J3 J4 J5 J6 J7 J8 J9 J10 J11 J12 J13 J14].
+  destruct (I9 Hd) as (Hq & Hh & Hw & Hheld). unfold b_holdings in I1. rewrite Hq, Hh, Hw, Hheld in *.
+  specialize (J3 Hbug). specialize (J5 Hbug). specialize (J9 Hbug).
+  rewrite L4 in *. destruct (J12 eq_refl) as (Ha & Hpm & Hl). specialize (J13 eq_refl).
+  unfold c_holdings in J9. rewrite Ha, Hpm, Hl, J13 in *. rewrite zlen_nil in *. cbn [len_opt sending_Z sent_Z] in *.
+  repeat split; try assumption; try lia.
+Qed.
+
+(* ------------------------------------------------------------------------------------------ *)
+(* distinct chunk ids: newLeftoverChannel never removes anything, so c_dups stays 0              *)
+
+Lemma insert_chunk_perm : forall c l, Permutation (insert_chunk c l) (c :: l).
+Proof.
+  induction l as [|x l IH]; simpl; [apply Permutation_refl|].
+  destruct (ch_id c <=? ch_id x); [apply Permutation_refl|].
+  eapply Permutation_trans; [apply perm_skip; exact IH|apply perm_swap].
+Qed.
+
+Lemma sort_chunks_perm : forall l, Permutation (sort_chunks l) l.
+Proof.
+  induction l as [|c l IH]; simpl; [apply Permutation_refl|].
+  eapply Permutation_trans; [apply insert_chunk_perm|apply perm_skip; exact IH].
+Qed.
+
+Lemma dedup_adj_nodup : forall l, NoDup (map ch_id l) -> dedup_adj l = l.
+Proof.
+  induction l as [|c l IH]; intros H; [reflexivity|].
+  cbn [dedup_adj]. destruct l as [|x l']; [reflexivity|].
+  inversion H as [|? ? Hn Hr]; subst.
+  destruct (ch_id c =? ch_id x) eqn:E.
+  - exfalso. apply Hn. simpl. left. lia.
+  - rewrite IH by exact Hr. reflexivity.
+Qed.
+
+Lemma new_leftover_channel_nodup : forall l, NoDup (map ch_id l) ->
+  Permutation (new_leftover_channel l) l /\ zlen (new_leftover_channel l) = zlen l.
+Proof.
+  intros l H. unfold new_leftover_channel.
+  assert (Hp : Permutation (sort_chunks l) l) by apply sort_chunks_perm.
+  assert (Hn : NoDup (map ch_id (sort_chunks l))).
+  { eapply Permutation_NoDup; [|exact H]. apply Permutation_map. apply Permutation_sym. exact Hp. }
+  rewrite (dedup_adj_nodup _ Hn). split; [exact Hp|].
+  unfold zlen. rewrite (Permutation_length Hp). reflexivity.
+Qed.
+
+Lemma take_id_perm : forall id l c r, take_id id l = Some (c, r) -> Permutation l (c :: r).
+Proof.
+  induction l as [|x l IH]; intros c r H; simpl in H; [discriminate|].
+  destruct (ch_id x =? id).
+  - inversion H; subst. apply Permutation_refl.
+  - destruct (take_id id l) as [[y r']|] eqn:T; [|discriminate]. inversion H; subst.
+    eapply Permutation_trans; [apply perm_skip; apply IH; reflexivity|apply perm_swap].
+Qed.
+
+Definition held (s : cstate) : list chunk := c_left s ++ opt_list (c_last s) ++ c_achan s ++ c_pmap s.
+Definition held_ids (s : cstate) : list Z := map ch_id (held s).
+
+(* the environment hypothesis: a chunk received from the input channel has an id the client does not hold *)
+Fixpoint takes_fresh (cfg : ccfg) (s : cstate) (evs : list c_event) : Prop :=
+  match evs with
+  | [] => True
+  | e :: r =>
+    match e with CTake c => ~ In (ch_id c) (held_ids s) | _ => True end /\
+    match c_step cfg s e with Some s' => takes_fresh cfg s' r | None => True end
+  end.
+
+Definition nd_inv (s : cstate) : Prop := c_bug s = 0 -> NoDup (held_ids s) /\ c_dups s = 0.
+
+Lemma nodup_perm : forall (a b : list chunk), Permutation a b -> NoDup (map ch_id a) -> NoDup (map ch_id b).
+Proof. intros a b Hp Hn. eapply Permutation_NoDup; [apply Permutation_map; exact Hp|exact Hn]. Qed.
+
+Lemma nodup_tail : forall (c : chunk) l, NoDup (map ch_id (c :: l)) -> NoDup (map ch_id l).
+Proof. intros c l H. inversion H; assumption. Qed.
+
+Section PermLemmas.
+Variable A : Type.
+Implicit Types (c : A) (l a p o left : list A).
+
+Lemma perm_pop : forall c l a p, Permutation ((c :: l) ++ [] ++ a ++ p) (l ++ [c] ++ a ++ p).
+Proof. intros. simpl. apply Permutation_middle. Qed.
+
+Lemma perm_take : forall c left a p, Permutation (c :: (left ++ [] ++ a ++ p)) (left ++ [c] ++ a ++ p).
+Proof. intros. simpl. apply Permutation_middle. Qed.
+
+Lemma perm_queue : forall c left a p, Permutation (left ++ [c] ++ a ++ p) (left ++ [] ++ (a ++ [c]) ++ p).
+Proof.
+  intros. simpl. apply Permutation_app_head. rewrite <- app_assoc. simpl. apply Permutation_middle.
+Qed.
+
+Lemma perm_ackertake : forall c left o l p, Permutation (left ++ o ++ (c :: l) ++ p) (left ++ o ++ l ++ p ++ [c]).
+Proof.
+  intros. apply Permutation_app_head. apply Permutation_app_head. simpl.
+  rewrite app_assoc. apply Permutation_cons_append.
+Qed.
+
+Lemma perm_ackread : forall c left o a p l, Permutation p (c :: l) ->
+  Permutation (left ++ o ++ a ++ p) (c :: (left ++ o ++ a ++ l)).
+Proof.
+  intros c left o a p l H.
+  eapply Permutation_trans.
+  - apply Permutation_app_head. apply Permutation_app_head. apply Permutation_app_head. exact H.
+  - rewrite !app_assoc. apply Permutation_sym. apply Permutation_middle.
+Qed.
+
+Lemma perm_collect : forall left o a p, Permutation (left ++ o ++ a ++ p) (left ++ a ++ p ++ o).
+Proof.
+  intros. apply Permutation_app_head. rewrite (app_assoc a p o). apply Permutation_app_comm.
+Qed.
+End PermLemmas.
+
+Lemma c_step_nd : forall cfg s e s',
+  c_inv s -> nd_inv s -> c_step cfg s e = Some s' ->
+  match e with CTake c => ~ In (ch_id c) (held_ids s) | _ => True end -> nd_inv s'.
+Proof.
+  intros cfg s e s' Hinv Hnd Hs Hfresh.
+  destruct Hinv as [J1 J2 J3 J4 J5 J6 J7 J8 J9 J10 J11 J12 J13 J14].
+  unfold nd_inv, held_ids, held in *.
+  destruct s as [m ph ak left last achan pmap unacked stop taken completed failed utot cbc cbl dups bug].
+  cbn [c_m c_phase c_acker c_left c_last c_achan c_pmap c_unacked c_stop c_taken c_completed c_failed c_unacked_total c_cb_consumed c_cb_left c_dups c_bug] in *.
+  destruct e; unfold c_step in Hs; unfold collect, set_phase, set_cm, set_acker in Hs;
+    cbn [c_m c_phase c_acker c_left c_last c_achan c_pmap c_unacked c_stop c_taken c_completed c_failed c_unacked_total c_cb_consumed c_cb_left c_dups c_bug] in Hs;
+    destruct ph; try discriminate; cbn [in_session idle_stage] in *; b_crunch; try discriminate;
+    cbn [c_m c_phase c_acker c_left c_last c_achan c_pmap c_unacked c_stop c_taken c_completed c_failed c_unacked_total c_cb_consumed c_cb_left c_dups c_bug opt_list];
+    intros Hb; try (assert (Hb0 : bug = 0) by lia); try (exfalso; lia);
+    try (destruct (Hnd Hb0) as [Hn Hd]); try (destruct (Hnd Hb) as [Hn Hd]);
+    try (split; [exact Hn|exact Hd]).
+  all: try (destruct (J12 eq_refl) as (Ha & Hp & Hl); subst).
+  all: try (specialize (J11 eq_refl); subst).
+  all: try (specialize (J10 eq_refl eq_refl); subst).
+  all: cbn [opt_list] in *.
+  all: try (match goal with H : take_id _ _ = Some _ |- _ => apply take_id_perm in H end).
+  (* COpenOk / unchanged *)
+  all: try (split; [exact Hn|lia]).
+  (* CPopLeft *)
+  all: try (split; [eapply nodup_perm; [apply perm_pop|exact Hn]|lia]).
+  (* CTake *)
+  all: try (split; [eapply nodup_perm; [apply perm_take|]; cbn [map]; apply NoDup_cons; [exact Hfresh|exact Hn]|lia]).
+  (* CQueue *)
+  all: try (split; [eapply nodup_perm; [apply perm_queue|exact Hn]|lia]).
+  (* AckerTake *)
+  all: try (split; [eapply nodup_perm; [apply perm_ackertake|exact Hn]|lia]).
+  (* AckRead *)
+  all: try (split; [eapply nodup_tail; eapply nodup_perm; [eapply perm_ackread; eassumption|exact Hn]|lia]).
+  (* CFinalPop *)
+  all: try (split; [eapply nodup_tail; exact Hn|lia]).
+  (* CCollectDone *)
+  all: try (match goal with |- context [new_leftover_channel ?l] =>
+              assert (Hl2 : NoDup (map ch_id l)) by (eapply nodup_perm; [apply perm_collect|exact Hn]);
+              destruct (new_leftover_channel_nodup l Hl2) as [Hp2 Hz2];
+              split; [rewrite !app_nil_r; eapply nodup_perm; [apply Permutation_sym; exact Hp2|exact Hl2]|lia]
+            end).
+Qed.
+
+Lemma c_run_nd : forall cfg evs s s',
+  c_inv s -> nd_inv s -> c_run cfg s evs = Some s' -> takes_fresh cfg s evs -> nd_inv s'.
+Proof.
+  intros cfg. induction evs as [|e evs IH]; intros s s' Hi Hn Hr Hf; simpl in Hr.
+  - inversion Hr; subst; exact Hn.
+  - destruct (c_step cfg s e) as [s1|] eqn:Hs; [|discriminate].
+    simpl in Hf. rewrite Hs in Hf. destruct Hf as [Hf1 Hf2].
+    eapply IH; [eapply c_step_inv; eauto| |exact Hr|exact Hf2].
+    eapply c_step_nd; eauto.
+Qed.
+
+(* with distinct chunk ids nothing is ever removed as a duplicate *)
+Lemma client_no_dups_lemma : forall cfg evs s,
+  c_run cfg c_init evs = Some s -> takes_fresh cfg c_init evs -> c_bug s = 0 -> c_dups s = 0.
+Proof.
+  intros cfg evs s Hr Hf Hb.
+  assert (H : nd_inv s).
+  { eapply c_run_nd; [apply c_init_inv| |exact Hr|exact Hf]. intros _. split; [constructor|reflexivity]. }
+  destruct (H Hb) as [_ Hd]. exact Hd.
+Qed.
+
+(* ------------------------------------------------------------------------------------------ *)
+(* non-vacuity: a concrete run of the system that reaches quiescence                             *)
+
+Definition example_run : list sys_event :=
+  [SB (BAccept 0 100 false true); SB (BAccept 1 50 true true);
+   SC COpen; SC COpenOk; SC CRecoveryDone;
+   SB BFeedTake; SB BFeedPush; STake; SC CSendOk; SC CQueue; SC AckerTake; SAck (Some 0) true;
+   SB BFeedTake; SB (BFeedLoad true true); SB BFeedPush; STake; SC CSendFail; SC AckerEnd; SC CCollectDone;
+   SB BDestroy; SB BFeedEnd; SStop; SC CRetryStop; SHandBack true; SFinish].
+
+Lemma example_run_lemma :
+  exists s, sys_run (bcfg_std false) (CC 3) (sys_init 0) example_run = Some s /\
+    b_phase (s_b s) = BDone /\ c_bug (s_c s) = 0 /\ c_dups (s_c s) = 0 /\
+    b_accepted (s_b s) = 2 /\ k_ack_n (c_m (s_c s)) = 1 /\ m_leftover (b_m (s_b s)) = 1 /\
+    k_attempts (c_m (s_c s)) = 2 /\ k_fwd_n (c_m (s_c s)) = 1.
+Proof. eexists. split; [vm_compute; reflexivity|]. vm_compute. repeat split; reflexivity. Qed.
+
+Definition example_records : list rec_run :=
+  [RR (InParsed 70 false [] false) [[107;97]]%N (Some (PRec [[104;49]]%N 70 [] false));
+   RR (InParsed 74 false [label_xmarker] true) [[107;97]]%N None;
+   RR (InMalformed 60) [] None;
+   RR (InParsed 66 false [] false) [[107;98]]%N (Some (PRec [[104;50]]%N 66 [label_marker] true))].
+
+Lemma example_records_lemma :
+  Forall rr_wf example_records /\
+  ic_pn (i_cnt (fst (run_records true (merge_key false) example_records))) = 2 /\
+  ic_dn (i_cnt (fst (run_records true (merge_key false) example_records))) = 2.
+Proof. split; [repeat constructor|]. vm_compute. split; reflexivity. Qed.
